@@ -272,6 +272,39 @@ def build_diff_records(quick: bool, seed: int) -> list[dict[str, Any]]:
                 n = h.adjust_cause(c)
                 recs.append({'kind': 'narrow', 'hasold': old is not None, 'old': enc(a), 'new': enc(b), 'path': path, 'reason': reason,
                              'nold': enc(n.old), 'nnew': enc(n.new)})
+    # ... and what the functions are GIVEN when several handlers narrowed to different fields run in one cycle (lifecycle all_at_once, through the
+    # real execute_handlers_once): each one gets the values of ITS field, whatever ran before it
+    import asyncio
+    from kopf._cogs.configs import configuration
+    from kopf._core.actions import execution, lifecycles, progression
+    settings_ = configuration.OperatorSettings()
+    for a, b in rnd.sample(pairs, 120 if quick else 1500) + more[:60 if quick else 600]:
+        if not isinstance(a, dict) or not isinstance(b, dict):
+            continue
+        paths = rnd.sample((['p'], ['a'], ['p', 'q'], ['a', 'b']), rnd.randint(2, 4))
+        given: dict[str, Any] = {}
+
+        def mkfn(hid_: str):
+            async def fn(old, new, **_):
+                given[hid_] = (old, new)
+            return fn
+        hs_ = [khandlers.ChangingHandler(fn=mkfn(f'h{k_}'), id=f'h{k_}', param=None, errors=None, timeout=None, retries=None, backoff=None,
+                                         selector=references.Selector('example.com', 'v1', 'things'), labels=None, annotations=None, when=None,
+                                         field=tuple(path), value=None, old=None, new=None, field_needs_change=False, initial=None, deleted=None,
+                                         requires_finalizer=None, reason=causes.Reason('update')) for k_, path in enumerate(paths)]
+        c = causes.ChangingCause(reason=causes.Reason('update'), initial=False, old=a, new=b, diff=diffs.diff(a, b), resource=res_,
+                                 indices=indexing.OperatorIndexers().indices, logger=log, patch=patches.Patch(),
+                                 body=bodies.Body({'metadata': {'name': 'o', 'uid': 'u'}}), memo=ephemera.Memo())
+        async def once_() -> None:
+            await execution.execute_handlers_once(lifecycle=lifecycles.all_at_once, settings=settings_, handlers=hs_, cause=c,
+                                                  state=progression.State.from_scratch().with_handlers(hs_))
+        asyncio.run(once_())
+        for k_, path in enumerate(paths):
+            if f'h{k_}' in given:
+                recs.append({'kind': 'narrow', 'hasold': True, 'old': enc(a), 'new': enc(b), 'path': path, 'reason': 'update',
+                             'nold': enc(given[f'h{k_}'][0]), 'nnew': enc(given[f'h{k_}'][1]), 'nth': k_})
+            else:
+                recs.append({'kind': 'narrow', 'hasold': True, 'old': enc(a), 'new': enc(b), 'path': path, 'reason': 'update', 'nold': enc('NOT-INVOKED'), 'nnew': enc(None), 'nth': k_})
     return recs
 
 
